@@ -181,7 +181,16 @@ func c12MapStores(fd *ast.FuncDecl, m string) (res [][2]string) {
 			return true
 		}
 		if k, ok := strLit(ix.Index); ok {
-			res = append(res, [2]string{k, exprText(as.Rhs[0])})
+			rhs := exprText(as.Rhs[0])
+			// <t>.Format("2006-01-02T15:04:05Z07:00") is <t>.Format(time.RFC3339) spelled out
+			if ce, ok := as.Rhs[0].(*ast.CallExpr); ok && len(ce.Args) == 1 {
+				if se, ok := ce.Fun.(*ast.SelectorExpr); ok && se.Sel.Name == "Format" {
+					if lit, ok := strLit(ce.Args[0]); ok && lit == "2006-01-02T15:04:05Z07:00" {
+						rhs = exprText(se.X) + ".Format(time.RFC3339)"
+					}
+				}
+			}
+			res = append(res, [2]string{k, rhs})
 		}
 		return true
 	})
